@@ -31,8 +31,9 @@ import (
 //
 // Monitors at the end, on the final catalog (all Property C04): ttl-clock:lost-update (a counter is below the
 // number of acknowledged increments, or the logged counter values are not 1..N in log order), ttl-clock:phantom-update
-// (above), ttl-clock:ack-lost (an acknowledged insert is gone without a delete event — with a delete event it is the
-// expiry's business and judged by the C19 monitors), ttl-clock:ack-not-logged / ttl-clock:logged-twice (not exactly
+// (above), ttl-clock:ack-lost (an acknowledged insert — of a client or of the insert phase — that cannot be expired
+// is gone and the change log has no delete event for it; with a delete event it is the expiry's business and judged by
+// the C19 monitors), ttl-clock:ack-not-logged / ttl-clock:logged-twice (not exactly
 // one change-log event per acknowledged write; increments are identified by their token), ttl-clock:unacked-logged
 // (an aborted transaction left an event), ttl-clock:log-order (a write acknowledged before another one was issued
 // comes later in the log — this includes the program order of every goroutine), ttl-clock:txn-interleaved (the
@@ -203,7 +204,13 @@ func (s *tcScn) startClients(ctx context.Context, spec tcClientSpec) (join func(
 					dr, derr := s.coll(victim.h).DeleteOne(ctx, bson.D{{Key: "_id", Value: victim.id}})
 					err = derr
 					if err == nil && dr.DeletedCount != 1 {
-						err = fmt.Errorf("delete of the own document %s.%s %s deleted %d", victim.h[0], victim.h[1], victim.id, dr.DeletedCount)
+						// the own (immune) document is gone already: the document monitors say who took it; this
+						// operation wrote nothing
+						s.tag("own-document-vanished")
+						s.mu.Lock()
+						op.parts = nil
+						s.mu.Unlock()
+						continue
 					}
 					if err == nil {
 						s.mu.Lock()
